@@ -22,7 +22,7 @@ NoCall == [op |-> "none", k |-> 0, v |-> 0, cost |-> 0]
 Init0 == [tid |-> "none", line |-> 0, maxsize |-> 0, loading |-> 0, door |-> 0, cur |-> [k \in KeyDom |-> NoCur],
           call |-> NoCall, prev |-> NoCur, delv |-> NoCur, owed |-> FALSE, peak |-> 0, loaded |-> FALSE, loadv |-> 0, loadc |-> 0,
           hits |-> 0, misses |-> 0, closed |-> FALSE, seen |-> <<>>, viol |-> {}, traces |-> 0, calls |-> 0]
-V(s, prop, kind) == IF Cardinality(s.viol) >= 60 THEN s ELSE [s EXCEPT !.viol = @ \cup {<<prop, s.tid, s.line, kind>>}]
+V(s, prop, kind) == IF Cardinality({x \in s.viol : x[1] = prop /\ x[4] = kind}) >= 25 THEN s ELSE [s EXCEPT !.viol = @ \cup {<<prop, s.tid, s.line, kind>>}]
 Vif(s, c, prop, kind) == IF c THEN V(s, prop, kind) ELSE s
 RECURSIVE SumC(_, _)
 SumC(f, S) == IF S = {} THEN 0 ELSE LET x == CHOOSE y \in S : TRUE IN f[x].cost + SumC(f, S \ {x})
